@@ -81,7 +81,7 @@ func verifC11Refuse() {
 
 // verifC11List: ConfigList / ParseConfigList round-trip for lists of 0..3 configs.
 func verifC11List() {
-	n := vInt(0, 3)
+	n := vInt(0, 2+vTier())
 	var specs []ConfigSpec
 	var cfgs []Config
 	var ref []byte
@@ -105,7 +105,7 @@ func verifC11List() {
 		}
 	}
 	// every proper prefix of a non-trivial list is rejected
-	if len(list) > 0 {
+	if len(list) > 0 && (n <= 1 || vTier() > 0) {
 		k := vInt(0, len(list)-1)
 		_, err := ParseConfigList(list[:k])
 		vAssert(err != nil, "truncated list rejected")
